@@ -121,6 +121,13 @@ class ShellScriptBinaryIOHelper(BinaryIO):
             return None
 
     @staticmethod
+    def _protect_leading_dash(formatstring: str) -> str:
+        # printf takes a format operand that starts with "-" for an option.
+        if formatstring.startswith("-"):
+            return "\\055" + formatstring[1:]
+        return formatstring
+
+    @staticmethod
     def write_to_shellscript(shellscript_out: TextIO, data: bytes, comment: str = ""):
         # First split `data` into chunks such that each chunk is either a potential
         # base64-encoded string or definitely not.
@@ -134,10 +141,12 @@ class ShellScriptBinaryIOHelper(BinaryIO):
             base64 = ShellScriptBinaryIOHelper._try_base64(chunk)
             if base64 is not None:
                 formatstring += "%s"
+                base64 = ShellScriptBinaryIOHelper._protect_leading_dash(base64)
                 params.append(f"\"$(printf '{base64}' | base64 -w0)\"")
             else:
                 formatstring += ShellScriptBinaryIOHelper._escape_bytes(chunk)
         # The final shell script command.
+        formatstring = ShellScriptBinaryIOHelper._protect_leading_dash(formatstring)
         command = f"printf '{formatstring}'"
         if params:
             command += f" {' '.join(params)}"
